@@ -125,6 +125,33 @@ func vectors(k int) [][]int {
 	return out
 }
 
+// Space exposes the security scenarios with requests for every verdict vector under the default-less configuration (used by C12).
+func Space() ([]scen.Case, func(scen.Case) scen.Unit, func(scen.Case) []rt.Request) {
+	cases, inf := buildCases()
+	reqsFor := func(c scen.Case) []rt.Request {
+		in := inf[c.ID]
+		var out []rt.Request
+		n := 0
+		add := func(verb, url, body, ct string, k int) {
+			for _, vec := range vectors(k) {
+				out = append(out, rt.Request{ID: fmt.Sprintf("%s#%d", c.ID, n), Verb: verb, URL: url, Body: body, ContentType: ct, Verdicts: vec})
+				n++
+			}
+		}
+		kOp := len(effective(in.M.Secs, in.C.Secs, nil))
+		base := "/" + c.ID
+		add("GET", base+"/q?n=5", "", "", kOp)
+		add("GET", base+"/q?n=abc", "", "", kOp)
+		add("GET", base+"/q", "", "", kOp)
+		add("POST", base+"/b", `{"a":"x"}`, "application/json", kOp)
+		add("POST", base+"/b", `{"a":5}`, "application/json", kOp)
+		add("POST", base+"/b", ``, "application/json", kOp)
+		add("GET", base+"/inherit", "", "", len(effective(nil, in.C.Secs, nil)))
+		return out
+	}
+	return cases, instrument, reqsFor
+}
+
 func Main(tier, replay string) {
 	run := core.NewRun("C03", tier)
 	scratch := scen.MkScratch("c03")
